@@ -220,7 +220,8 @@ def nested_delayed(blocks=2, maxo=2, maxi=1, nvariants=2, colliding_only=False, 
 def trailing_class33(level=0):
     """a finished quality-information block followed, after an element of another class, by class-33 elements used as
     ORDINARY elements (no bitmap governs them: they are plain members of the template, not attributes)"""
-    tails = [('q', [NS, Q7]), ('cq', [NN, C3, Q7]), ('q-then-plain', [NS, Q7, N7]), ('q-first', [Q7, NS])]
+    tails = [('q', [NS, Q7]), ('cq', [NN, C3, Q7]), ('q-then-plain', [NS, Q7, N7]), ('q-first', [Q7, NS]),
+             ('235-q', [235000, Q7, NS])]             # an operator ends the run of quality values like any other descriptor
     for name, descs, queues, free in chain1(level):
         if not name.startswith(('b2|', 'b3|')):
             continue
@@ -232,3 +233,14 @@ def trailing_class33(level=0):
             if tname == 'q-first' and op == '222':
                 continue      # a class-33 element directly after the quality values would continue the run
             yield '%s|tail-%s' % (name, tname), descs + tail, queues, free
+
+
+def trailing_class33_after_chain(level=0):
+    """quality values (222000) followed by a marker construct, then a class-33 element as ordinary member: the marker
+    operator has ended the run of quality values"""
+    for name, descs, queues, free in chain2(level):
+        parts = name.split('|')
+        if not parts[0] in ('b2',) or not parts[1].startswith('222.') or parts[2] != '' or parts[3].startswith('222.'):
+            continue
+        yield name + '|tail-q-first', descs + [Q7, NS], queues, free
+        yield name + '|tail-c3', descs + [C3], queues, free
